@@ -25,9 +25,12 @@ VARIABLES ix,             \* the shared maps (Index.tla record)
           th,             \* per-thread local state
           sc,             \* the scenario
           pu, pd,         \* key -> shard placement of usage_by_fixture / definitions
+          pk,             \* keys PRESENT in usage_by_fixture / definitions (a key whose vector was emptied by retain() stays
+                          \* in the map until remove_if takes it out: the abstract index does not distinguish the two, the lock
+                          \* sequence of a concurrent thread does)
           sched           \* history: thread ids in step order (hidden by VIEW in exhaustive runs)
-vars == <<ix, th, sc, pu, pd, sched>>
-view == <<ix, th, sc, pu, pd>>
+vars == <<ix, th, sc, pu, pd, pk, sched>>
+view == <<ix, th, sc, pu, pd, pk>>
 
 (* Model constants *)
 CFiles == {"fa", "fb"}
@@ -75,8 +78,12 @@ Local(pc) == [pc |-> pc, keys |-> <<>>, names |-> <<>>, i |-> 1, rm |-> FALSE, h
 RECURSIVE SetToSeqC(_)
 SetToSeqC(S) == IF S = {} THEN <<>> ELSE LET x == CHOOSE y \in S : TRUE IN <<x>> \o SetToSeqC(S \ {x})
 
+\* every order in which a shard's keys may come out of DashMap's iterator (hash order: arbitrary)
+OrdersOf(S) == { s \in [1..Cardinality(S) -> S] : \A i, j \in 1..Cardinality(S) : i # j => s[i] # s[j] }
+
 Job(t) == sc.job[t]
-KeysInShard(s) == { n \in CNames : ix.ubf[n] # <<>> /\ pu[n] = s }
+KeysInShard(s) == { n \in pk.ubf : pu[n] = s }
+PresentKeys(x) == [ubf |-> { n \in CNames : x.ubf[n] # <<>> }, defs |-> { n \in CNames : x.defs[n] # <<>> }]
 
 \* a W request on (map, shard) is enabled iff no OTHER thread holds that shard (reader-preferring
 \* lock: only holders matter); R requests are enabled iff no writer holds -- no thread ever parks
@@ -89,6 +96,7 @@ Init ==
     /\ ix = BuildFrom([EmptyIndex(CNames, [f \in Files |-> NoMod]) EXCEPT !.plugins = {}],
                       sc.prev, SetToSeqC({ f \in Files : sc.prev[f].present }), TRUE)
     /\ th = [t \in Threads |-> Local("cache")]
+    /\ pk = PresentKeys(ix)
     /\ sched = <<>>
 
 \* transitions that take no lock happen inside the step that precedes them
@@ -106,38 +114,49 @@ Step(t) ==
     \/ /\ l.pc = "cache"            \* first turn: file_cache.insert, parse (no shared-map lock yet)
        /\ ix' = [ix EXCEPT !.cached[f] = m]
        /\ Goto(t, [l EXCEPT !.pc = IF m.valid THEN "iter0" ELSE "done"])
+       /\ UNCHANGED pk
     \/ /\ l.pc = "iter0"            \* usage_by_fixture.iter(): shard 0 (guard kept until shard 1 is locked)
-       /\ Goto(t, [l EXCEPT !.pc = "iter1", !.keys = SetToSeqC(KeysInShard(0)), !.held = {<<"ubf", 0>>}])
-       /\ UNCHANGED ix
+       /\ \E o \in OrdersOf(KeysInShard(0)) :
+             Goto(t, [l EXCEPT !.pc = "iter1", !.keys = o, !.held = {<<"ubf", 0>>}])
+       /\ UNCHANGED <<ix, pk>>
     \/ /\ l.pc = "iter1"            \* shard 1
-       /\ Goto(t, [l EXCEPT !.pc = "ukey", !.keys = l.keys \o SetToSeqC(KeysInShard(1)), !.i = 1, !.held = {}])
-       /\ UNCHANGED ix
+       /\ \E o \in OrdersOf(KeysInShard(1)) :
+             Goto(t, [l EXCEPT !.pc = "ukey", !.keys = l.keys \o o, !.i = 1, !.held = {}])
+       /\ UNCHANGED <<ix, pk>>
     \/ /\ l.pc = "ukey" /\ l.i <= Len(l.keys)     \* get_mut(key): retain, is_empty
        /\ LET k == l.keys[l.i]
               after == SelectFile(ix.ubf[k], f)
           IN  /\ ~HeldByOther(t, <<"ubf", pu[k]>>)
               /\ ix' = [ix EXCEPT !.ubf[k] = after]
-              /\ Goto(t, IF ix.ubf[k] # <<>> /\ after = <<>>   \* key present and now empty
+              /\ UNCHANGED pk
+              \* `usages.is_empty()` after the retain: true also when ANOTHER thread emptied the vector and has not
+              \* removed the key yet; an absent key (get_mut -> None) is skipped
+              /\ Goto(t, IF k \in pk.ubf /\ after = <<>>
                          THEN [l EXCEPT !.pc = "urm"]
                          ELSE [l EXCEPT !.i = l.i + 1])
     \/ /\ l.pc = "urm"              \* remove_if(key, is_empty)
        /\ ~HeldByOther(t, <<"ubf", pu[l.keys[l.i]]>>)
-       /\ UNCHANGED ix              \* an empty vector and an absent key are the same abstract state
+       /\ UNCHANGED ix              \* an empty vector and an absent key are the same abstract index state
+       /\ pk' = IF ix.ubf[l.keys[l.i]] = <<>> THEN [pk EXCEPT !.ubf = @ \ {l.keys[l.i]}] ELSE pk   \* remove_if(.., is_empty)
        /\ Goto(t, [l EXCEPT !.pc = "ukey", !.i = l.i + 1])
     \/ /\ l.pc = "ukey" /\ l.i > Len(l.keys)      \* usages.remove(f)
        /\ ix' = [ix EXCEPT !.usages[f] = <<>>]
+       /\ UNCHANGED pk
        /\ Goto(t, [l EXCEPT !.pc = IF Job(t).cleanup THEN "fdrm" ELSE "walk", !.i = 1])
     \/ /\ l.pc = "fdrm"             \* file_definitions.remove(f)
        /\ ix' = [ix EXCEPT !.fdefs[f] = {}]
+       /\ UNCHANGED pk
        /\ Goto(t, [l EXCEPT !.pc = "dkey", !.names = SetToSeqC(ix.fdefs[f]), !.i = 1])
     \/ /\ l.pc = "dkey" /\ l.i <= Len(l.names)    \* definitions.get_mut(name): retain, is_empty
        /\ LET n == l.names[l.i]
               after == SelectFile(ix.defs[n], f)
           IN  /\ ix' = [ix EXCEPT !.defs[n] = after]
-              /\ Goto(t, IF ix.defs[n] # <<>> /\ after = <<>>
+              /\ UNCHANGED pk
+              /\ Goto(t, IF n \in pk.defs /\ after = <<>>
                          THEN [l EXCEPT !.pc = "drm"] ELSE [l EXCEPT !.i = l.i + 1])
     \/ /\ l.pc = "drm"              \* definitions.remove_if(name, is_empty)
        /\ UNCHANGED ix
+       /\ pk' = IF ix.defs[l.names[l.i]] = <<>> THEN [pk EXCEPT !.defs = @ \ {l.names[l.i]}] ELSE pk
        /\ Goto(t, [l EXCEPT !.pc = "dkey", !.i = l.i + 1])
     \/ /\ l.pc = "walk"             \* one record_* map operation of the module walk
        /\ LET ops == WalkOps(f, m)
@@ -149,6 +168,10 @@ Step(t) ==
                                                  Append(@, DefRec(f, op.i, m.items[op.i], FALSE)),
                                                        !.version = @ + 1]
                          [] op.o = "fdef" -> [ix EXCEPT !.fdefs[f] = @ \cup {m.items[op.i].name}]
+              \* entry(key).or_default().push(..): the key is (again) present
+              /\ pk' = CASE op.o = "ubf" -> [pk EXCEPT !.ubf = @ \cup {op.u.name}]
+                          [] op.o = "def" -> [pk EXCEPT !.defs = @ \cup {m.items[op.i].name}]
+                          [] OTHER -> pk
               /\ Goto(t, [l EXCEPT !.i = l.i + 1])
 
 Next == \E t \in Threads : Step(t) /\ sched' = Append(sched, t) /\ UNCHANGED <<sc, pu, pd>>
